@@ -23,6 +23,7 @@ import (
 	"runtime/debug"
 	"sort"
 	"strings"
+	"time"
 
 	"github.com/hneemann/parser2/funcGen"
 	"github.com/hneemann/parser2/listMap"
@@ -520,6 +521,42 @@ func coopScenarios(quick bool, emit func(cscenario)) {
 		{"multiUse-consumer", 3, []int{0, 2}, func(k int, f string) string { return "numbers(n).multiUse({a:l->l.map(x->" + F("x", k, f) + ").sum(),b:l->l.size()}).a" }},
 		{"multiUse-source", 3, []int{0, 2}, func(k int, f string) string { return "numbers(n).map(x->" + F("x", k, f) + ").multiUse({a:l->l.sum(),b:l->l.size()}).a" }},
 	}
+	// closure provenance: the callback reaches the goroutine-running operation as a let-bound closure, a
+	// func declaration, a RECURSIVE func that passes itself, a curried closure, a map field — with the
+	// fault raised directly in its own body
+	provs := []struct{ name, decl, use string }{
+		{"let-bound", "let cb=x->BODY;", "cb"},
+		{"func", "func cb(x) BODY;", "cb"},
+		{"recursive-func", "func cb(x) if x<0 then cb(x+1) else BODY;", "cb"},
+		{"curried", "let mk=k->x->BODY;", "mk(1)"},
+		{"map-field", "let o={cb:x->BODY};", "o.cb"},
+		{"returned-from-func", "func mk(k) x->BODY;", "mk(1)"},
+	}
+	for _, pv := range provs {
+		for _, fn := range fnames[1:] {
+			body := F("x", 12, faults[fn])
+			decl := strings.ReplaceAll(pv.decl, "BODY", "slow("+body+")")
+			emitBoth := func(pos, src string, n int) {
+				emit(cscenario{Pos: pos + "/" + pv.name, Fault: fn, K: 12, N: n, Src: src})
+				emit(cscenario{Pos: pos + "/" + pv.name, Fault: fn, K: 12, N: n, Src: "try " + src + " catch 42", Try: true})
+			}
+			emitBoth("parallel-mapper", decl+"numbers(n).map("+pv.use+").sum()", 14)
+			declS := strings.ReplaceAll(pv.decl, "BODY", F("x", 1, faults[fn]))
+			emitBoth("merge-operand", declS+"numbers(n).map("+pv.use+").merge(numbers(n),(a,b)->a<b).sum()", 3)
+			declL := strings.ReplaceAll(strings.ReplaceAll(pv.decl, "x<0", "x.size()<0"), "BODY", strings.ReplaceAll(faults[fn], "x", "x.size()"))
+			emitBoth("multiUse-consumer", declL+"numbers(n).multiUse({a:"+pv.use+",b:l->l.size()}).a", 3)
+		}
+	}
+	// a recursive function that passes ITSELF (the self reference inside its own body) to the operation
+	for _, fn := range fnames[1:] {
+		both := func(pos, src string, n int) {
+			emit(cscenario{Pos: pos, Fault: fn, K: 112, N: n, Src: src})
+			emit(cscenario{Pos: pos, Fault: fn, K: 112, N: n, Src: "try " + src + " catch 42", Try: true})
+		}
+		both("parallel-mapper/recursive-func-passing-itself", "func cb(x) if x<100 then numbers(n).map(e->e+100).map(cb).sum() else slow("+F("x", 112, faults[fn])+"); cb(0)", 14)
+		both("merge-operand/recursive-func-passing-itself", "func cb(x) if x<100 then numbers(n).map(e->e+100).map(cb).merge(numbers(n),(a,b)->a<b).sum() else "+F("x", 101, faults[fn])+"; cb(0)", 3)
+		both("multiUse-consumer/recursive-func-passing-itself", "func cb(l) if l.size()>2 then numbers(2).multiUse({a:cb,b:q->q.size()}).a else "+strings.ReplaceAll(faults[fn], "x", "l.size()")+"; cb(numbers(n))", 3)
+	}
 	for _, p := range positions {
 		for _, fn := range fnames {
 			for _, k := range p.ks {
@@ -609,6 +646,90 @@ func contains(l []string, s string) bool {
 	return false
 }
 
+// runRace is the free-running pass on the -race build (real goroutines, the Go race detector sees ALL
+// memory): the fault-injection scenarios of the coop part, with a slow() that really sleeps so that the
+// library's wall-clock measurement goes parallel, plus type-error faults raised by several workers at
+// once. A race report is a true positive whatever location it concerns; a dead process is a verdict.
+func runRace(ctx *bex.Ctx) {
+	ctx.Space("race-detector-pass")
+	g := value.New()
+	g.AddStaticFunction("slow", funcGen.Function[value.Value]{
+		Func: func(st funcGen.Stack[value.Value], cs []value.Value) (value.Value, error) {
+			time.Sleep(300 * time.Microsecond)
+			return st.Get(0), nil
+		},
+		Args: 1, IsPure: false,
+	}.SetDescription("x", "identity that really sleeps 300us"))
+	g.AddStaticFunction("boom", funcGen.Function[value.Value]{
+		Func: func(st funcGen.Stack[value.Value], cs []value.Value) (value.Value, error) {
+			panic("host function panicked")
+		},
+		Args: 1, IsPure: false,
+	}.SetDescription("x", "a host function that panics"))
+	var all []cscenario
+	coopScenarios(ctx.Quick(), func(sc cscenario) { all = append(all, sc) })
+	// type errors (whose messages are built from the operand types) raised by every worker at once
+	for _, fault := range []string{"sin(\"a\"+x)", "x.foo", "x(1)", "[x][1]", "!x", "(1<\"a\"+x)", "{k:x}.k.j", "\"s\".len(x)"} {
+		for _, shape := range []string{
+			"numbers(n).map(x->slow(if x>11 then FAULT else x)).sum()",
+			"numbers(n).map(x->try slow(if x>11 then FAULT else x) catch 0).sum()",
+			"numbers(n).accept(x->slow(if x>11 then FAULT else x)>=0).size()",
+			"numbers(n).multiUse({a:l->l.map(x->try FAULT catch 0).sum(),b:l->l.map(x->try FAULT catch 1).sum(),c:l->l.map(x->try FAULT catch 2).sum()}).a",
+			"numbers(n).map(x->try FAULT catch 0).merge(numbers(n).map(x->try FAULT catch 1),(a,b)->a<b).sum()",
+		} {
+			n := 40
+			if !strings.Contains(shape, "slow") {
+				n = 5
+			}
+			all = append(all, cscenario{Pos: "type-error-on-all-workers", Fault: fault, N: n, Src: strings.ReplaceAll(shape, "FAULT", fault), Try: strings.Contains(shape, "try")})
+		}
+	}
+	var idx int64
+	for _, sc := range all {
+		idx++
+		if !ctx.Mine(idx) || ctx.Expired() {
+			continue
+		}
+		repro := map[string]any{"position": sc.Pos, "fault": sc.Fault, "n": sc.N, "src": sc.Src, "racebuild": true}
+		if !ctx.Begin(func() map[string]any { return repro }) {
+			continue
+		}
+		f, _, err := g.Generate(sc.Src, "n")
+		if err != nil {
+			continue
+		}
+		reps := 3
+		if !ctx.Quick() {
+			reps = 10
+		}
+		n := sc.N
+		if strings.HasPrefix(sc.Pos, "parallel") || strings.HasPrefix(sc.Pos, "upstream") || strings.HasPrefix(sc.Pos, "downstream") || strings.HasPrefix(sc.Pos, "terminal") {
+			n = 40 // several elements in the parallel phase on 4 real cores
+		}
+		for r := 0; r < reps; r++ {
+			ctx.Eval()
+			c, v := observe(f, []value.Value{value.Int(n)})
+			ctx.Add("race_build_runs", 1)
+			if c == "PANIC-ESCAPED" {
+				ctx.Violate("a Go panic escaped from the evaluation call (race build)", repro, "value or error", v, "")
+			}
+		}
+		ctx.Nontrivial("race|" + sc.Src)
+		ctx.Outcome("racebuild:" + sc.Pos)
+		if rep := ctx.RaceReports(); rep != "" {
+			finding := ""
+			if strings.Contains(rep, "value.(*List).Eval") {
+				finding = "F11-lazy-constant-materialisation-race"
+			}
+			if len(rep) > 2500 {
+				rep = rep[:2500] + "…"
+			}
+			ctx.Violate("the Go race detector reports a data race (free-running -race build)", repro, "no report", rep, finding)
+		}
+	}
+	ctx.SpaceDone("every fault-injection scenario of the coop part plus 8 type-error faults x 5 shapes raised on all workers at once, each evaluated 3 (thorough: 10) times free-running on the -race build with GOMAXPROCS=4")
+}
+
 func copyMap(m map[string]any) map[string]any {
 	o := map[string]any{}
 	for k, v := range m {
@@ -678,13 +799,16 @@ func main() {
 		ClassifyCrash:    classifyCrash,
 		HangSeconds:      60,
 		CoopWorkers:      4,
-		Workers:          12,
+		RaceWorkers:      2,
+		Workers:          10,
 		Run: func(ctx *bex.Ctx) {
 			log.SetOutput(io.Discard)
 			// a host with a 64 MB goroutine stack limit: runaway recursion that is not stopped by the
 			// library dies quickly instead of filling Go's default 1 GB first
 			debug.SetMaxStack(64 << 20)
-			if ctx.Coop {
+			if ctx.Race {
+				runRace(ctx)
+			} else if ctx.Coop {
 				runCoop(ctx)
 			} else {
 				runPlain(ctx)
